@@ -29,6 +29,7 @@ harness("c20_animation", "san", "pbt/c20_animation.cc", link="-lrapidcheck")
 harness("c14_builders", "san", "pbt/c14_builders.cc", link="-lrapidcheck")
 harness("c15_io", "san", "pbt/c15_io.cc", link="-lrapidcheck")
 harness("dec_enum", "san", "fuzz/dec_enum.cc", link="-lrapidcheck")
+harness("c05_corpus", "san", "pbt/c05_corpus.cc", link="-lrapidcheck")
 harness("dec_fuzz", "san", "fuzz/dec_fuzz.cc", link="-fsanitize=fuzzer")
 # the command line tools of the repository, plain optimised build (C15 pipelines)
 harness("draco_encoder", "plain", "repo:src/draco/tools/draco_encoder.cc", whole_archive=True)
@@ -558,7 +559,26 @@ def check_c18(tier):
     return check_dec("C18", tier)
 
 
+def check_c05(tier):
+    t0 = time.time()
+    exe = ensure_built(["c05_corpus"])["c05_corpus"]
+    res = Result()
+    dirs = "%s:%s" % (os.path.join(VERIF, "corpus", "legacy"), os.path.join(VERIF, "corpus", "frozen"))
+    run_shards(res, "C05", "c05_corpus", exe, "c05", tier, 16, 1,
+               extra_env={"VERIF_CORPUS_DIRS": dirs, "VERIF_GOLDEN": os.path.join(VERIF, "corpus", "golden.txt"),
+                          "VERIF_REPO": REPO})
+    res.required_classes = ["version_1.1", "version_1.2", "version_2.0", "version_2.1", "version_2.2", "version_2.3",
+                            "mesh_edgebreaker", "mesh_sequential", "pc_kdtree", "pc_sequential", "version_gate_checks",
+                            "legacy_streams_checked_against_test_nm_obj"]
+    return finish("C05", tier, res, t0,
+                  assumptions=["decides the present tree against frozen bytes; it cannot quantify over future histories",
+                               "goldens of the frozen corpus are the decode of the tree revision that froze them (after the "
+                               "recorded fixes); the legacy test_nm.obj streams are additionally checked against the source OBJ",
+                               "the encoder's bytes are not compared: an encoder improvement is not a violation"])
+
+
 CHECKS = {
+    "C05": check_c05,
     "C02": check_c02,
     "C03": check_c03,
     "C18": check_c18,
@@ -583,6 +603,7 @@ REPLAYERS = {
     "C20": [("c20_animation", "c20")],
     "C14": [("c14_builders", "c14")],
     "C15": [("c15_io", "c15")],
+    "C05": [("c05_corpus", "c05")],
     "C02": [("dec_enum", "x")],
     "C03": [("dec_enum", "x")],
     "C18": [("dec_enum", "x")],
